@@ -1393,6 +1393,17 @@ struct Agg {
     deferred: Option<Fail>,
 }
 
+/// For other checks (C09): the generated variable font of a case and the user coordinate tuples
+/// (raw 16.16 values, first = the default location) that C12 instances it at.
+pub fn generated_font_and_users(case: &Case) -> (Vec<u8>, Vec<Vec<i32>>) {
+    let b = build(case);
+    let mut users: Vec<Vec<i32>> = vec![b.axes.iter().map(|a| a.default).collect()];
+    for cs in &case.coords {
+        users.push(b.axes.iter().enumerate().map(|(i, a)| user_value(&cs[i], a, i, &b.all_regions)).collect());
+    }
+    (b.font, users)
+}
+
 pub fn check_case(case: &Case, rec: &mut Rec) -> CaseResult {
     let b = build(case);
     let has_invalid = b.all_regions.iter().any(|r| r.iter().any(|a| axis_region_invalid(*a)));
